@@ -24,10 +24,20 @@ type c16Case struct {
 }
 
 func c16Lattice(res *vResult, cfg vCfg, only *c16Case) {
-	in := newVInst(cfg)
-	defer in.close()
-	sys := &sessSys{ex: &seqExplorer{res: res, scenario: cfg}, res: res, in: in, m: newRefAgent(1)}
-	sys.exec(&sessReq{sReq: sReq{Kind: kAssoc, Conn: 0}})
+	var in *vInst
+	var sys *sessSys
+	steps, runs := 0, 0
+	fresh := func() {
+		if in != nil {
+			steps += sys.steps
+			in.close()
+		}
+		in = newVInst(cfg)
+		sys = &sessSys{ex: &seqExplorer{res: res, scenario: cfg}, res: res, in: in, m: newRefAgent(1)}
+		sys.exec(&sessReq{sReq: sReq{Kind: kAssoc, Conn: 0}})
+	}
+	fresh()
+	defer func() { in.close() }()
 	check := func(cs c16Case, label string) {
 		for _, v := range in.p4.fp.takeInvalid() {
 			cls := strings.SplitN(v, "|", 2)[0]
@@ -36,6 +46,13 @@ func c16Lattice(res *vResult, cfg vCfg, only *c16Case) {
 	}
 	check(c16Case{Cfg: cfg}, "start-up")
 	run := func(est sessReq, label string) {
+		// a refused establishment keeps its counter cells (recorded finding c05:up4-failed-establishment-not-rolled-back) and
+		// the lattice holds many establishments that must be refused: a long-lived instance runs out of cells and then
+		// refuses everything. Every 40 cases start from a fresh instance.
+		if runs++; runs%40 == 0 {
+			check(c16Case{Cfg: cfg}, "before instance renewal")
+			fresh()
+		}
 		cs := c16Case{Cfg: cfg, Est: &est}
 		res.journal(cs)
 		res.Evaluations++
@@ -45,6 +62,13 @@ func c16Lattice(res *vResult, cfg vCfg, only *c16Case) {
 			return
 		}
 		res.outcome(fmt.Sprintf("accepted=%v", ctx.accepted))
+		if strings.HasPrefix(label, "rule ids") {
+			cause := -1
+			if ctx.resp != nil {
+				cause = int(ctx.resp.Cause)
+			}
+			res.outcome(fmt.Sprintf("%s accepted=%v cause=%d nresp=%d", label, ctx.accepted, cause, len(ctx.resps)))
+		}
 		if ctx.newSess != nil && ctx.newSess.pdr(3) != nil {
 			// the same rules arriving through a modification: Update PDR with every precedence of the lattice
 			for _, prec := range []uint32{0, 100, 65534, 65535, 65536} {
@@ -63,7 +87,7 @@ func c16Lattice(res *vResult, cfg vCfg, only *c16Case) {
 		res.Distinct++
 		res.States++
 	}
-	defer func() { res.Transitions += int64(sys.steps); res.Traces += int64(sys.steps) }()
+	defer func() { res.Transitions += int64(steps + sys.steps); res.Traces += int64(steps + sys.steps) }()
 	if only != nil {
 		if only.Est != nil {
 			run(*only.Est, "replay")
@@ -179,6 +203,11 @@ func TestVerifC16(t *testing.T) {
 				c16Lattice(res, vCfg{P4: true, NConns: 1, P4Conf: &vP4Cfg{SliceID: sl, DefaultTC: tc, QFIToTC: map[uint8]uint8{9: (tc + 1) % 4, 63: 3}}}, nil)
 			}
 		}
+	}
+	// vacuity guard: the lattice must mostly consist of establishments the agent accepts (a long-lived instance once ran
+	// out of counter cells and silently refused five cases in six)
+	if a, r := res.Outcomes["accepted=true"], res.Outcomes["accepted=false"]; a+r > 0 && a < r {
+		panic(fmt.Sprintf("VERIF-INFRA: C16 lattice is vacuous: %d establishments accepted, %d refused", a, r))
 	}
 	for i, sc := range c04Scenarios() {
 		item++
